@@ -39,6 +39,7 @@ type Exclusions struct {
 
 type Exec struct {
 	D   Driver
+	Rec *recDriver // records the concrete trace of the run
 	Cfg Config
 	M   *Model
 	Ex  Exclusions
@@ -47,6 +48,7 @@ type Exec struct {
 	delta   map[int][]Rx
 	nextReq uint32
 	stepIdx int
+	traceStep int // finer-grained step counter for the recorded trace: 4*stepIdx + sub-step
 	Viol    []Violation
 	stop    bool
 
@@ -63,7 +65,10 @@ type Exec struct {
 }
 
 func NewExec(d Driver, cfg Config) *Exec {
-	return &Exec{D: d, Cfg: cfg, M: NewModel(), cur: map[int]int{}, delta: map[int][]Rx{}, nextReq: 100, Labels: map[string]int{}, lat: map[int]*latRun{}, applied: map[int]map[int32]int{}, unsubAt: map[*MSession]map[uint32]bool{}}
+	e := &Exec{Cfg: cfg, M: NewModel(), cur: map[int]int{}, delta: map[int][]Rx{}, nextReq: 100, Labels: map[string]int{}, lat: map[int]*latRun{}, applied: map[int]map[int32]int{}, unsubAt: map[*MSession]map[uint32]bool{}}
+	e.Rec = newRecDriver(d, &e.traceStep)
+	e.D = e.Rec
+	return e
 }
 
 func (e *Exec) fail(tags string, format string, a ...any) {
@@ -163,7 +168,31 @@ func (e *Exec) resolveSess(mc *MConn, r Ref) string {
 	}
 }
 
+// noteForeignID labels requests whose entity id exists only in another session.
+func (e *Exec) noteForeignID(mc *MConn, eid uint32) {
+	if mc.Sess == nil || eid == 0 {
+		return
+	}
+	if _, ok := mc.Sess.Ents[eid]; ok {
+		return
+	}
+	for _, o := range e.M.Live {
+		if o != mc.Sess {
+			if _, ok := o.Ents[eid]; ok {
+				e.label("id_of_other_session")
+				return
+			}
+		}
+	}
+}
+
 func (e *Exec) resolveEnt(mc *MConn, r Ref) uint32 {
+	id := e.resolveEnt0(mc, r)
+	e.noteForeignID(mc, id)
+	return id
+}
+
+func (e *Exec) resolveEnt0(mc *MConn, r Ref) uint32 {
 	s := mc.Sess
 	if s == nil {
 		// not joined: any number; ids of other sessions coincide anyway
@@ -306,10 +335,12 @@ func (e *Exec) Run(sc Script) {
 
 func (e *Exec) Step(st Step) {
 	if st.Op == OpTick {
+		e.traceStep = 4 * e.stepIdx
 		e.tick()
 		e.after(nil)
 		return
 	}
+	e.traceStep = 4 * e.stepIdx
 	mc := e.conn(st.Conn)
 	if e.Ex.PendingAcrossJoin {
 		if st.Op == OpJoin && (len(mc.PendingPose) > 0 || len(mc.PendingComp) > 0) {
@@ -330,6 +361,7 @@ func (e *Exec) Step(st Step) {
 			return
 		}
 	}
+	e.traceStep = 4*e.stepIdx + 1
 	e.actorBefore = mc.Sess
 	e.stepTags = ""
 	e.nextReq++
@@ -389,7 +421,40 @@ func (e *Exec) Step(st Step) {
 		panic("unknown op " + string(st.Op))
 	}
 	e.actorAfter = mc.Sess
+	e.annotate(mc.Slot)
 	e.after(mc)
+}
+
+func seqOf(s *MSession) int {
+	if s == nil {
+		return 0
+	}
+	return s.Seq
+}
+
+// annotate stamps the trace events of the current step with the session
+// instance the actor was in before and after it.
+func (e *Exec) annotate(slot int) {
+	for i := len(e.Rec.ev) - 1; i >= 0 && e.Rec.ev[i].Step == e.traceStep; i-- {
+		ev := &e.Rec.ev[i]
+		if ev.Kind == EvAdvance || ev.Slot != slot {
+			continue
+		}
+		ev.Before, ev.After = seqOf(e.actorBefore), seqOf(e.actorAfter)
+	}
+	if len(e.M.Live) >= 2 {
+		e.label("two_sessions_live")
+	}
+}
+
+// markJoin records which session instance the join request just sent addresses.
+func (e *Exec) markJoin(inst int) {
+	for i := len(e.Rec.ev) - 1; i >= 0; i-- {
+		if e.Rec.ev[i].Kind == EvSend {
+			e.Rec.ev[i].JoinInst = inst
+			return
+		}
+	}
 }
 
 // after runs the checks that apply after every step.
@@ -662,6 +727,14 @@ func (e *Exec) doJoin(mc *MConn, st Step, req uint32) {
 	e.D.Send(mc.Slot, &hagallpb.ParticipantJoinRequest{Type: TJoinReq, Timestamp: ts, RequestId: req, SessionId: id})
 	e.collect()
 
+	switch t := e.M.liveByID(id); {
+	case id == "":
+		e.markJoin(0)
+	case t != nil:
+		e.markJoin(t.Seq)
+	default:
+		e.markJoin(-2) // names no session: sent literally
+	}
 	if mc.Sess != nil && mc.Sess.ID == id {
 		e.label("join_already_joined")
 		e.stepTags = "C04"
@@ -1696,6 +1769,9 @@ func (e *Exec) doSub(mc *MConn, st Step, req uint32) {
 		// which defines its view of that type
 		if len(e.Viol) == 0 && !mc.Ended {
 			e.leftovers(mc)
+			e.actorAfter = mc.Sess
+			e.annotate(mc.Slot)
+			e.traceStep = 4*e.stepIdx + 3
 			e.nextReq++
 			e.listType(mc, tid, e.nextReq)
 			e.stepTags = "C13,C12"
